@@ -260,7 +260,7 @@ Definition r_clean t a :=
    Destination-shape table:   file -> existing dir d : d/base(src)        file -> existing file : overwritten
                               file -> missing "n/"  : n/ created, n/base  file -> missing "n"   : parents created, n
                               dir  -> missing n     : n becomes a copy    dir  -> existing dir d : d/base(src), merged
-   A directory is never copied into itself ('invalid', fix D12); copying a file onto itself is a no-op (fix D26). *)
+   A directory is never copied into itself nor merged into one of its own parents ('invalid', fix D12); copying a file onto itself is a no-op (fix D26). *)
 Definition r_copy t a b :=
   if parg_eqb a b then Out ROk t else
   match a, b with
@@ -282,7 +282,7 @@ Definition r_copy t a b :=
           | [] => Out (RErr EInvalid) t                (* the root can only be copied into itself *)
           | _ =>
             let dst := if is_dir t d then d ++ [base s] else d in
-            if is_prefix s dst then Out (RErr EInvalid) t
+            if is_prefix s dst || is_prefix dst s then Out (RErr EInvalid) t   (* into itself / over one of its own parents *)
             else if through_file t dst || graft_conflict t s dst then Unconstrained
             else Out ROk (graft (mkdirp t dst) s dst)
           end
@@ -362,6 +362,27 @@ Definition exec (t : tree) (c : call) : outcome :=
   | Size a => r_size t a | Hash a => r_hash t a | Rm a => r_rm t a | Clean a => r_clean t a
   | Copy a b => r_copy t a b | CopyToFile a b => r_copytofile t a b | CopyToDir a b => r_copytodir t a b
   | Move a b => r_move t a b | RelPath a => r_relpath t a
+  end.
+
+(* ---------- the destination of a call (second sentence of the property) ---------- *)
+
+Definition arg_path (a : parg) : list path := match a with PEmpty => [] | P p _ => [p] end.
+(* what a call may touch: its destination and, for move / rm / clean, its source *)
+Definition roots (c : call) : list path :=
+  match c with
+  | Mkdir a | Touch a | Write a _ | Rm a | Clean a => arg_path a
+  | Copy _ b | CopyToFile _ b | CopyToDir _ b => arg_path b
+  | Move a b => arg_path a ++ arg_path b
+  | _ => []
+  end.
+Definition outside (rs : list path) (q : path) : bool := forallb (fun r => negb (is_prefix r q)) rs.  (* not at or below a root *)
+Definition towards (rs : list path) (q : path) : bool := existsb (fun r => is_prefix q r) rs.        (* an ancestor of a root *)
+
+(* a program: calls in sequence; [None] as soon as a call is unconstrained *)
+Fixpoint run (t : tree) (cs : list call) : option tree :=
+  match cs with
+  | [] => Some t
+  | c :: cs' => match exec t c with Out _ t' => run t' cs' | Unconstrained => None end
   end.
 
 (* ---------- correspondence ---------- *)
